@@ -261,18 +261,24 @@ class DotProduct(Expression):
             }
             return [var_to_elem.get(v, Constant(0.0)) for v in variables]
 
-        # Case 2: x.dot(y) -> gradient is y[i] w.r.t. x[i], x[i] w.r.t. y[i]
-        left_lookup = {left_vars[i]: right_vars[i] for i in range(len(left_vars))}
-        right_lookup = {right_vars[i]: left_vars[i] for i in range(len(right_vars))}
+        # Case 2: x.dot(y) -> gradient is y[i] w.r.t. x[i], x[i] w.r.t. y[i].
+        # A variable may occur in both operands (overlapping views of one
+        # vector), so every occurrence contributes a term.
+        contributions: dict[Variable, list[Expression]] = {}
+        for l_var, r_var in zip(left_vars, right_vars):
+            contributions.setdefault(l_var, []).append(r_var)
+            contributions.setdefault(r_var, []).append(l_var)
 
         result: list[Expression] = []
         for var in variables:
-            if var in left_lookup:
-                result.append(left_lookup[var])
-            elif var in right_lookup:
-                result.append(right_lookup[var])
-            else:
+            terms = contributions.get(var)
+            if not terms:
                 result.append(Constant(0.0))
+            else:
+                acc: Expression = terms[0]
+                for term in terms[1:]:
+                    acc = BinaryOp(acc, term, "+")
+                result.append(acc)
         return result
 
     def __repr__(self) -> str:
@@ -1334,7 +1340,9 @@ class VectorVariable:
         if isinstance(other, MatrixVectorProduct):
             # Check if the MatrixVectorProduct's vector is self
             if isinstance(other.vector, VectorVariable):
-                if other.vector is self or other.vector.name == self.name:
+                if other.vector is self or list(other.vector._variables) == list(
+                    self._variables
+                ):
                     # This is x.dot(A @ x) - return QuadraticForm for O(1) gradient
                     return QuadraticForm(self, other.matrix)
 
